@@ -12,6 +12,7 @@ from harness import build, gen
 from harness import refmodel as rm
 
 RULE = (
+    "A third of the embedding cases give the target qubits hand-rotated orthonormal Hermitian bases (harness/covar.py). "
     "Factors are physical by construction (Stinespring / Naimark / spectral recipes from Hypothesis-drawn Ginibre arrays) on "
     "k = 2..4 elemental systems of dimension 2 or 3 whose distinct integer names (drawn from 0..9) come in a generated "
     "permutation; POVM / measurement-process / ensemble factors get pairwise different outcome counts so that an axis of the "
@@ -1165,6 +1166,21 @@ def check_embedding(case, ctx):
     qnames = case["qubit_names"]  # distinct, arbitrary order: the composite system sorts them
     es = [_esys(n, 2) for n in qnames]
     b4 = _qubit_basis(2 * nq)
+    if case.get("target_rot") is not None:
+        # target qubits carrying hand-rotated (orthonormal, Hermitian) bases; for states, POVMs and gates also bases whose
+        # first element is not proportional to the identity (measurement processes document that they reject those)
+        from harness import covar
+        from quara.objects.elemental_system import ElementalSystem
+        from quara.objects.matrix_basis import MatrixBasis
+
+        mode = case.get("target_mode", "keep_first")
+        ctx.label("target_basis:rotated:" + mode)
+        loc = {}
+        for k, n in enumerate(qnames):
+            o = covar.local_rotation(2, case["target_rot"], k, mode)
+            loc[int(n)] = [rm.herm(x) for x in rm.rotate_basis(rm.pauli_1q(True), o, keep_first=False)]
+        es = [ElementalSystem(int(n), MatrixBasis(loc[int(n)])) for n in qnames]
+        b4 = np.array(rm.kron_bases([loc[n] for n in sorted(loc)]))
     tol = _tol(d4) + 1e-10  # + eigenvalues <= 1e-13 of the Choi matrix dropped by to_kraus_matrices
 
     # documented rejection: 2 x (number of qutrits) target systems are required
@@ -1242,6 +1258,9 @@ def embedding_case(draw, tier):
     case["probe_povm"] = draw(gen.povm_case(shp, (3, 4)))
     pool = draw(st.permutations(list(range(8))))
     case["qubit_names"] = [int(x) for x in pool[: 2 * nq]]
+    if draw(st.integers(0, 2)) == 0:
+        case["target_rot"] = draw(gen.raw(32))
+        case["target_mode"] = "keep_first" if t == "mprocess" else draw(st.sampled_from(["keep_first", "full", "givens0"]))
     return case
 
 
